@@ -18,7 +18,7 @@ LEVEL = "proof"
 LEAN = ["SaVerif.Props.C36"]
 META = {
     "text": "Lean theorems for ALL mutation sequences of the transcribed attribute machine: the invariant (a clean attribute mirrors the row; the value captured in committed_state at the FIRST modification is the committed value) is preserved by set / del / collection append / remove / bulk replace / expire / load / flush, hence History.from_scalar_attribute / from_object_attribute / from_collection (transcribed literally) return exactly diff(committed, current): set-back-to-original gives no change, added/unchanged/deleted of a collection partition current and committed membership, and after flush the row holds the current value and the history is all-unchanged. Unloaded (expired) originals are reported with deleted = () as the code does.",
-    "note": "Hand transcription of one attribute at a time, tied by per-operation correspondence on state.dict, committed_state, the history triple and the row. Backrefs, pending (unloaded) collection mutations, active_history attributes and dict collections are covered by the direct oracle only. The oracle keeps its own record of the committed value and checks the history against the plain difference; flush is checked through the emitted UPDATE columns and the reloaded rows.",
+    "note": "Hand transcription of one attribute at a time, tied by per-operation correspondence on state.dict, committed_state, the history triple and the row. Backrefs, pending (unloaded) collection mutations, active_history attributes, dict collections and many-to-one relationships that cannot use the identity-map get (deferred history: the original is fetched on demand, against the committed column values) are covered by the direct oracle only. The oracle keeps its own record of the committed value and checks the history against the plain difference; flush is checked through the emitted UPDATE columns and the reloaded rows.",
     "technique": "Lean 4 invariant proof over a transcribed state machine + literal transcription of History.from_* + per-operation differential correspondence with the real ORM on SQLite",
     "design_ref": "DESIGN.md §3 C36",
 }
@@ -650,6 +650,207 @@ class CollRunner:
         self.sess.close()
 
 
+def deferred_env():
+    """many-to-one that cannot use the identity-map get (FK to a non-pk unique column): the old
+    value of an unloaded relationship is fetched on demand when history is requested"""
+    if "def" in _ENV:
+        return _ENV["def"]
+    import sqlalchemy as sa
+    from sqlalchemy import orm
+    from sqlalchemy.pool import StaticPool
+
+    Base = orm.declarative_base()
+
+    class DPar(Base):
+        __tablename__ = "c36_dpar"
+        id = sa.Column(sa.Integer, primary_key=True)
+        code = sa.Column(sa.String(10), unique=True, nullable=False)
+
+    class DChi(Base):
+        __tablename__ = "c36_dchi"
+        id = sa.Column(sa.Integer, primary_key=True)
+        parent_code = sa.Column(sa.ForeignKey("c36_dpar.code"))
+        parent = orm.relationship(DPar)
+        # custom primaryjoin variant of the same shape
+        alt_code = sa.Column(sa.String(10))
+        alt = orm.relationship(DPar, primaryjoin="foreign(DChi.alt_code) == DPar.code", viewonly=False, overlaps="parent")
+
+    eng = sa.create_engine("sqlite://", poolclass=StaticPool)
+    Base.metadata.create_all(eng)
+    _ENV["def"] = (DPar, DChi, eng, Base)
+    return _ENV["def"]
+
+
+CODES = ["A", "B", "C", "D"]
+
+
+class DeferredRunner:
+    """one persistent child; ops on the referencing column and on the relationship; history is
+    requested with and without SQL allowed; the committed parent is what the ROW refers to"""
+
+    def __init__(self, case):
+        import sqlalchemy as sa
+        from sqlalchemy import orm
+
+        self.sa = sa
+        self.case = case
+        DPar, DChi, eng, Base = deferred_env()
+        self.DPar, self.DChi = DPar, DChi
+        self.rel, self.col = ("parent", "parent_code") if case["rel"] == "fk" else ("alt", "alt_code")
+        with eng.begin() as c:
+            c.execute(DChi.__table__.delete())
+            c.execute(DPar.__table__.delete())
+        with orm.Session(eng) as s0:
+            s0.add_all([DPar(id=i + 1, code=cd) for i, cd in enumerate(CODES)])
+            s0.flush()
+            s0.add(DChi(id=10, **{self.col: case["init"]}))
+            s0.commit()
+        self.sess = orm.Session(eng, autoflush=False)
+        self.pars = {p.code: p for p in self.sess.query(DPar).all()}
+        self.child = self.sess.get(DChi, 10)
+        self.committed = case["init"]  # code the row refers to
+        self.col_dirty = False
+        self.violations = []
+
+    def par(self, code):
+        return None if code is None else self.pars[code]
+
+    def code_of(self, o):
+        return None if o is None else o.code
+
+    def row(self):
+        t = self.DChi.__table__
+        return self.sess.connection().execute(self.sa.select(t.c[self.col]).where(t.c.id == 10)).scalar()
+
+    def check_hist(self, how, h, sql_allowed):
+        st = self.sa.inspect(self.child)
+        if self.rel not in st.committed_state:
+            return  # relationship not re-assigned: its history is not about a change of it
+        cur = st.dict.get(self.rel, "absent")
+        if cur == "absent":
+            return
+        added = [self.code_of(o) for o in h.added]
+        unchanged = [self.code_of(o) for o in h.unchanged]
+        deleted = [self.code_of(o) for o in h.deleted]
+        if added + unchanged != [self.code_of(cur)]:
+            self.violations.append(("history-ne-diff", "%s: added %r + unchanged %r != current parent [%r]" % (how, added, unchanged, self.code_of(cur))))
+            return
+        if not sql_allowed:
+            if deleted and deleted != [self.committed]:
+                self.violations.append(("history-ne-diff", "%s: deleted %r is not the committed parent %r" % (how, deleted, self.committed)))
+            return
+        # SQL allowed: deleted ∪ unchanged is exactly the committed parent (None -> nothing)
+        want = [] if self.committed is None else [self.committed]
+        got = sorted(set(deleted) | (set(unchanged) if self.code_of(cur) == self.committed else set()))
+        if self.code_of(cur) == self.committed:
+            ok = (deleted == [] and unchanged == [self.committed]) or (self.committed is None and unchanged == [None])
+        else:
+            ok = deleted == want
+        if not ok:
+            self.violations.append(("history-ne-diff", "%s: added %r unchanged %r deleted %r; the row refers to parent %r, current parent %r" % (how, added, unchanged, deleted, self.committed, self.code_of(cur))))
+
+    def step(self, op):
+        from sqlalchemy.orm import attributes
+
+        k = op["op"]
+        ch = self.child
+        st = self.sa.inspect(ch)
+        try:
+            if k == "setcode":
+                setattr(ch, self.col, op["v"])
+                self.col_dirty = True
+            elif k == "setrel":
+                setattr(ch, self.rel, self.par(op["v"]))
+            elif k == "loadrel":
+                if not self.col_dirty:  # a lazy load after a column edit uses the CURRENT column value
+                    getattr(ch, self.rel)
+            elif k == "exprel":
+                self.sess.expire(ch, [self.rel])
+            elif k == "expall":
+                if not st.modified:
+                    self.sess.expire(ch)
+                    self.col_dirty = False
+            elif k == "hist":
+                self.check_hist("attrs.%s.history" % self.rel, st.attrs[self.rel].history, False)
+            elif k in ("load_history", "get_history"):
+                if self.rel not in st.committed_state and self.rel not in st.dict and self.col_dirty:
+                    return  # would lazy-load the relationship by the CURRENT column value (see loadrel)
+                if k == "load_history":
+                    self.check_hist("load_history()", st.attrs[self.rel].load_history(), True)
+                else:
+                    self.check_hist("attributes.get_history()", attributes.get_history(ch, self.rel), True)
+            elif k == "flush":
+                self.do_flush()
+        except Exception as e:  # noqa: BLE001
+            self.violations.append(("op-raised", "%s raised %s: %s" % (json.dumps(op), type(e).__name__, str(e)[:200])))
+
+    def do_flush(self):
+        st = self.sa.inspect(self.child)
+        rel_set = self.rel in st.committed_state and self.rel in st.dict
+        cur_par = self.code_of(st.dict.get(self.rel)) if rel_set else None
+        colval = st.dict.get(self.col, self.committed)
+        self.sess.flush()
+        row = self.row()
+        if rel_set and cur_par != self.committed:
+            want = cur_par
+        elif not rel_set:
+            want = colval
+        else:
+            want = None  # relationship re-assigned to the committed parent while the column changed: not specified here
+        if want is not None or (rel_set and cur_par is None and self.committed is not None) or (not rel_set and colval is None):
+            if row != want:
+                self.violations.append(("flush-ne-current", "after flush the row refers to %r, expected %r (relationship set: %s, column value %r)" % (row, want, rel_set, colval)))
+                return
+        self.committed = row
+        if self.col_dirty and self.rel in st.dict:
+            # the column was written directly: a relationship value loaded earlier is stale until
+            # it is expired (the ORM does not refresh it) — do what a user has to do
+            self.sess.expire(self.child, [self.rel])
+        self.col_dirty = False
+
+    def finish(self):
+        if self.violations:
+            return
+        self.step({"op": "load_history"})
+        if not self.violations:
+            self.step({"op": "flush"})
+
+    def close(self):
+        self.sess.rollback()
+        self.sess.close()
+
+
+def gen_deferred_case(rng, maxops):
+    case = {"deferred": True, "rel": rng.choice(["fk", "fk", "alt"]), "init": rng.choice(CODES[:3] + [None]), "ops": []}
+    for _ in range(rng.randint(2, maxops)):
+        c = rng.random()
+        if c < 0.25:
+            case["ops"].append({"op": "setcode", "v": rng.choice(CODES + [None])})
+        elif c < 0.5:
+            case["ops"].append({"op": "setrel", "v": rng.choice(CODES + [None])})
+        elif c < 0.58:
+            case["ops"].append({"op": "loadrel"})
+        elif c < 0.64:
+            # (whole-object expiry also expires the referencing column: the original can then not be
+            #  resolved against committed values without loading it — not generated)
+            case["ops"].append({"op": "exprel"})
+        elif c < 0.9:
+            case["ops"].append({"op": rng.choice(["hist", "load_history", "get_history"])})
+        else:
+            case["ops"].append({"op": "flush"})
+    return case
+
+
+def replay_deferred_case(case):
+    R = DeferredRunner(case)
+    for op in case["ops"]:
+        if R.violations:
+            break
+        R.step(op)
+    R.finish()
+    return R
+
+
 COLL_OPS = {
     "list": ["add", "remove", "pop", "delitem", "delslice", "clear", "extend", "insert", "rep", "delcoll"],
     "set": ["add", "remove", "discard", "pop", "clear", "update", "diffupd", "intupd", "symupd", "rep", "delcoll"],
@@ -823,6 +1024,21 @@ def run(ctx, deep=False):
                 ctx.violation("c36:" + R.violations[0][0], case, R.violations[0][1])
         finally:
             R.close()
+    directed_d = [
+        {"deferred": True, "rel": r, "init": "A", "ops": [{"op": "setcode", "v": "B"}, {"op": "setrel", "v": "C"}, {"op": h}]}
+        for r in ("fk", "alt") for h in ("load_history", "get_history")
+    ]
+    for case in directed_d + [gen_deferred_case(ctx.rng, 8 if thorough else 6) for _ in range(n // 4)]:
+        R = replay_deferred_case(case)
+        try:
+            ctx.case(case, nontrivial=True)
+            ctx.count("kind=deferred-m2o/%s" % case["rel"])
+            for o in case["ops"]:
+                ctx.count("op=deferred:%s" % o["op"])
+            if R.violations:
+                ctx.violation("c36:" + R.violations[0][0], case, R.violations[0][1])
+        finally:
+            R.close()
     if ctx.driver_ok():
         bad = ["history scalar 0 L:5 frob", "history scalar 2 F -", "history coll Q -"]
         ctx.correspond("corr/c36:malformed-rejected", [{"line": l} for l in bad], ["bad-op"] * len(bad), ctx.driver(bad))
@@ -837,6 +1053,14 @@ def search(ctx, broken):
 
 def replay(ctx, obj):
     case = obj["case"]
+    if case.get("deferred"):
+        R = replay_deferred_case(case)
+        try:
+            print("replay C36 %s" % json.dumps(case))
+            print("oracle:", R.violations[:1] or "holds")
+            return bool(R.violations)
+        finally:
+            R.close()
     if case.get("coll"):
         R = replay_coll_case(case)
         try:
